@@ -1,19 +1,29 @@
 #!/bin/bash
-# tools/run_seeded.sh <seeded/NAME> [check ids...]   apply the change to /repo, run the checks
-# (quick tier), print which ones report a violation, and always undo the change afterwards.
+# tools/run_seeded.sh <seeded/NAME | patch.diff> [check ids...]
+# Applies the change to a SCRATCH worktree of /repo (never to /repo itself, so background runs are
+# not disturbed), rebuilds a scratch copy of this directory's simulator against it, runs the checks
+# (quick tier unless TIER is set) and prints which ones report a violation. The scratch copies live
+# under /tmp/gmrs_scratch*; remove them with `tools/run_seeded.sh --clean`.
 set -u
-D="$(cd "$1" && pwd)"; shift
-cd /verif
-if ! git -C /repo diff --quiet; then echo "refusing: /repo has uncommitted changes"; exit 2; fi
-git -C /repo apply "$D/patch.diff" || { echo "patch does not apply"; exit 2; }
-trap 'git -C /repo checkout -- . ' EXIT
+SR=/tmp/gmrs_scratch_repo; SV=/tmp/gmrs_scratch_verif
+if [ "${1:-}" = "--clean" ]; then
+  git -C /repo worktree remove --force $SR 2>/dev/null; rm -rf $SR $SV; git -C /repo worktree prune; exit 0
+fi
+P="$1"; shift
+[ -d "$P" ] && P="$P/patch.diff"
+P="$(cd "$(dirname "$P")" && pwd)/$(basename "$P")"
+HEAD=$(git -C /repo rev-parse HEAD)
+if [ ! -d $SR ]; then git -C /repo worktree add -q --detach $SR $HEAD || exit 2; fi
+( cd $SR && git checkout -q -- . && git checkout -q --detach $HEAD && cp /repo/Cargo.lock . ) || exit 2
+mkdir -p $SV && rsync -a --delete --exclude target --exclude replays --exclude .git /verif/ $SV/ && sed -i "s#/repo/#$SR/#g" $SV/sim/Cargo.toml
+( cd $SR && git apply "$P" ) 2>/dev/null || { echo "patch does not apply: $P"; exit 2; }
 CHECKS="${*:-$(python3 -c "import json;print(' '.join(c['property_id'] for c in json.load(open('/verif/MANIFEST.json'))['checks']))")}"
-mkdir -p /tmp/seeded_ev
+cd $SV
 for c in $CHECKS; do
-  cp evidence/$c.json /tmp/seeded_ev/$c.json.bak 2>/dev/null
   out=$(./check $c "${TIER:-quick}" 2>&1); rc=$?
   nv=$(echo "$out" | grep -c '^VIOLATION')
   first=$(echo "$out" | grep -m1 'oracle=' | sed 's/step-count.*re-executions)://' | cut -c1-220)
+  [ -z "$first" ] && first=$(echo "$out" | grep -m1 '^VIOLATION' | cut -c1-200)
   echo "$c rc=$rc violations=$nv $first"
-  cp /tmp/seeded_ev/$c.json.bak evidence/$c.json 2>/dev/null   # evidence must describe the unchanged tree
 done
+( cd $SR && git checkout -q -- . )
